@@ -48,11 +48,11 @@ def corrupt(data, rng):
             elif data[start - 2:start] == b', ':
                 start -= 2
             return data[:start] + data[end:]
-    if r < 0.447:
+    if r < 0.462:
         # no encoding anywhere: every text section is left to "8-bit binary" / JSON auto-detection
         d2 = re.sub(rb': encoding=[^,\r\n]+(?=\r?\n)', b':', data)
         return re.sub(rb'(, )?encoding=[^,\r\n]+(, )?', lambda m: b', ' if m.group(1) and m.group(2) else b'', d2)
-    if r < 0.455:
+    if r < 0.47:
         # pathological metadata: very deep nesting
         m = re.search(rb'^#\.*meta:[^\n]*length=(\d+)[^\n]*\n', data, re.M)
         if m:
